@@ -7,6 +7,7 @@ import (
 )
 
 func init() {
+	verifRegister("VerifC10_KPriorSite", VerifC10_KPriorSite)
 	verifRegister("VerifC10_EOrder", VerifC10_EOrder)
 	verifRegister("VerifC10_EPrior", VerifC10_EPrior)
 	verifRegister("VerifC10_KBuiltins", VerifC10_KBuiltins)
@@ -284,5 +285,89 @@ func VerifC10_EShared() {
 		vAssert(outcome(r) == outcome(r1), "a later fresh runtime loading the same Program gets the same value; got "+outcome(r))
 		vAssert(e.Runtime.Steps() == s1, "and uses the same number of steps")
 	}
+	vCover("end")
+}
+
+
+// What a call yields names only the evaluation that made it.  Another runtime of the process first
+// makes the same call from ANOTHER file and position (prior activity); then this runtime makes it
+// from its own file: every location in the error it gets (its own and its trace's) lies in THIS
+// file, and a third runtime making the call gives the identical result -- nothing a different
+// runtime did earlier (a process-wide cache, a memoised error value) shows.  Every registered
+// function of the stdlib packages (thorough: of every package) x 0..2 arguments out of six
+// troublesome values (a malformed pattern, a malformed document, a plain string, an int, (), a list).
+var c10C *lisp.LEnv
+
+func VerifC10_KPriorSite_Setup() {
+	VerifC10_KBuiltins_Setup()
+	c10C = newEnv(nil, lisp.WithMaximumPhysicalStackHeight(60), lisp.WithMaxSteps(2000), lisp.WithMaxAlloc(1<<12), lisp.WithMaxEvalNesting(120), lisp.WithMaxMacroExpansionDepth(20))
+	if rc := loadStdlib(c10C); !rc.IsNil() {
+		panic("stdlib load failed")
+	}
+}
+
+func VerifC10_KPriorSite() {
+	if c10A == nil || c10C == nil {
+		VerifC10_KPriorSite_Setup()
+	}
+	n := len(c03Funs)
+	per := (n + 31) / 32
+	idx := vConcInt(vndChoice("fn.hi", 32)*per + vndChoice("fn.lo", per))
+	vAssume(idx < n)
+	name := c03Funs[idx]
+	vAssume(!c10Skip[name])
+	if vParam("allpkgs", 0) == 0 {
+		vAssume(!strings.HasPrefix(name, "lisp:"))
+	}
+	vAssume(name != "lisp:in-package" && name != "lisp:set" && name != "lisp:defun" && name != "lisp:defmacro" && name != "lisp:export" && name != "lisp:use-package")
+	arity := vConcInt(vndChoice("arity", 3))
+	gens := []string{"\"a(\"", "\"{\"", "\"x\"", "5", "()", "'(1 2)"}
+	call := "(" + name
+	for i := 0; i < arity; i++ {
+		call += " " + gens[vConcInt(vndChoice("gen", len(gens)))]
+	}
+	call += ")"
+	vObserve("call", call)
+	prior := c10B.LoadString("prior-file", "\n\n   "+call)
+	_ = prior
+	show := func(r *lisp.LVal) string {
+		out := r.String()
+		if r.Type == lisp.LError {
+			out += " | " + lisp.GoError(r).Error()
+			if st := r.CallStack(); st != nil {
+				for _, f := range st.Frames {
+					out += " | " + f.QualifiedFunName("?")
+					if f.Source != nil {
+						out += "@" + f.Source.String()
+					}
+				}
+			}
+		}
+		return out
+	}
+	r1 := c10A.LoadString("this-file", call)
+	s1 := show(r1)
+	if r1.Type == lisp.LError {
+		if loc, ok := r1.Source(); ok {
+			vAssert(loc.File == "this-file", "the error is located in the source that was loaded, not where another runtime once made the same call: "+s1)
+		}
+		if st := r1.CallStack(); st != nil {
+			for _, f := range st.Frames {
+				if f.Source != nil && f.Source.File != "" {
+					vAssert(f.Source.File == "this-file" || f.Source.Pos < 0 || !strings.Contains(f.Source.File, "prior-file"), "no frame of the trace comes from another runtime's evaluation: "+s1)
+				}
+			}
+		}
+	}
+	vAssert(!strings.Contains(s1, "prior-file"), "nothing in the result names the other runtime's source: "+s1)
+	r2 := c10C.LoadString("this-file", call) // a third runtime in the state the second was in
+	s2 := show(r2)
+	if s1 != s2 {
+		if vKnown("C10-schema-validator-counter", strings.Contains(s1, "_validation_fun_") && c10StripCounter(s1) == c10StripCounter(s2)) {
+			return
+		}
+	}
+	vAssert(s1 == s2, "a third runtime making the call gives the identical result: "+s1+" / "+s2)
+	vAssert(!strings.Contains(s1, "0xPTR"), "no memory address in the result")
 	vCover("end")
 }
